@@ -31,3 +31,7 @@ unsigned long long call_cb_u(unsigned long long (*cb)(unsigned long long), unsig
 long add_q(long a, long b) { return a + b + (LIBID - 1) * 1000; }
 int call_cb_q(int (*cb)(int), int x) { return cb(x); }
 int lib_id_q(void) { return LIBID; }
+/* a renamed entry point (the library's header says '#define api api_v2') next to its legacy version, and a plain one */
+int api(int x) { lg(20, x, 0); return x; }
+long api_v2(long a, long b) { lg(21, a, b); return a * 1000 + b; }
+long plain_fn(long a) { lg(22, a, 0); return a + 7; }
